@@ -71,15 +71,16 @@ def run(ctx):
 
 
 # ---------------------------------------------------------------------------------
-def r1_action(ctx, prog, cg, summ, drop):
+def r1_action(ctx, prog, cg, summ, drop, rule='R1', silence_only=False):
     chk = ctx.chk
+    R1 = rule
     A = prog.require_func(ACTION)
     emit_names = common.EMIT_APIS | {DISPATCH, OUT_DISPATCH, ERROR_HANDLER}
     calls = A.calls(FILTER_CHECK)
     filtering = 'SNOOPY_CONF_FILTERING_ENABLED' in prog.macros
     if filtering:
         ok = len(calls) == 1
-        chk.ob('R1', 'filter-consulted-once', ok, A.where(), A.name,
+        chk.ob(R1, 'filter-consulted-once', ok, A.where(), A.name,
                '%d calls of %s in the action' % (len(calls), FILTER_CHECK), nontrivial=False)
         if not calls:
             raise AnalysisBroken('%s is not called from %s although filtering is enabled' % (FILTER_CHECK, ACTION))
@@ -97,7 +98,7 @@ def r1_action(ctx, prog, cg, summ, drop):
             else:
                 # compared with PASS: the != edge is the drop edge
                 drop_edges.append((b, ne))
-        chk.ob('R1', 'drop-outcome-tested', len(drop_edges) >= 1, fc.where(), A.name,
+        chk.ob(R1, 'drop-outcome-tested', len(drop_edges) >= 1, fc.where(), A.name,
                'the result of %s is not compared with SNOOPY_FILTER_DROP/PASS in a branch' % FILTER_CHECK,
                how='%d branch(es) test the chain result' % len(drop_edges))
         bad = []
@@ -107,7 +108,7 @@ def r1_action(ctx, prog, cg, summ, drop):
                 n = A.nodes[v]
                 if summ.elem_may(A, n, emit_names):
                     bad.append(n)
-        chk.ob('R1', 'drop-is-silent', bool(drop_edges) and not bad, bad[0].where() if bad else fc.where(), A.name,
+        chk.ob(R1, 'drop-is-silent', bool(drop_edges) and not bad, bad[0].where() if bad else fc.where(), A.name,
                'after the chain said DROP the action still reaches %s' % (render(bad[0]) if bad else ''),
                how='no element reachable from the DROP edge may-calls an emission API, the dispatcher or the error handler')
         # nothing that can emit (message formatting can emit error records) runs before the decision
@@ -121,10 +122,12 @@ def r1_action(ctx, prog, cg, summ, drop):
         # elements only reachable when filtering is configured off at run time are fine: they are on
         # paths that never consult the chain; restrict to elements from which fc is still reachable
         early = [n for n in early if fc.id in C.reach(A, (pos[C.cfg_elem_of(A, n).id][0], pos[C.cfg_elem_of(A, n).id][1] + 1), None)[0]]
-        chk.ob('R1', 'nothing-emits-before-filter-decision', not early, early[0].where() if early else fc.where(), A.name,
+        chk.ob(R1, 'nothing-emits-before-filter-decision', not early, early[0].where() if early else fc.where(), A.name,
                '%s runs before the filter chain is consulted and can emit (e.g. error records while formatting), so a '
                'dropped call is not silent' % (render(early[0]) if early else ''),
                how='no may-emit element precedes the chain check on a path that reaches it')
+    if silence_only:
+        return
     # exactly one dispatch on every non-drop path
     # (error records raised while formatting go through the error handler and are "additional,
     # separate" records by the property: they are not counted here, R6 governs them)
@@ -160,7 +163,7 @@ def r1_action(ctx, prog, cg, summ, drop):
         def ef(b, si):
             return (b.id, si) not in {(bb.id, e) for bb, e in drop_edges}
         mn = min_count_filtered(A, lambda e: summ.elem_must(A, e, {DISPATCH}), ef)
-    chk.ob('R1', 'dispatch-exactly-once', mn == 1 and mx == 1, A.where(), A.name,
+    chk.ob(R1, 'dispatch-exactly-once', mn == 1 and mx == 1, A.where(), A.name,
            'a logged call dispatches between %s and %s times' % (mn, mx),
            how='min (non-drop paths) / max (all paths) count of %s = 1/1' % DISPATCH)
 
